@@ -8,11 +8,16 @@ MODS = ['parso/python/pep8.py']
 
 
 def check(ctx, rep):
+    from ..rules import shape
+    _n = shape.gr_10(ctx, rep, ['parso/python/pep8.py'])
     dar.da_rule(ctx, rep, MODS)
     dar.sig_rule(ctx, rep, MODS)
     dar.issue_kind_rule(ctx, rep, MODS)
     normr.norm_6(ctx, rep)
     normr.norm_4_5(ctx, rep)
+    from ..rules import treer
+    treer.tree_6(ctx, rep)       # issue lists must not depend on data cached on the tree across re-parses
+    rxr.rx_10(ctx, rep, ['parso/python/pep8.py', 'parso/python/prefix.py', 'parso/normalizer.py'])
     pf = rxr.rx_2(ctx, rep)
     rxr.rx_1(ctx, rep, pf.classes)          # the PEP 8 walk splits every prefix
     roots = [ctx.prog.func('parso/python/pep8.py', 'PEP8Normalizer.visit_leaf'),
